@@ -276,10 +276,11 @@ func Verif_C23_OptionalOctetString() {
 
 // c23OptionalBoolean: ReadOptionalASN1Boolean, all inputs of length 0..7, symbolic outer tag and
 // default: absent => default, nothing consumed; present => accepted iff DER TLV with that tag
-// whose content is exactly one DER BOOLEAN. strict=false weakens "exactly one" to "starts with
-// one" (what the unchanged code implements: trailing bytes inside the explicit tag are ignored,
-// see known_findings.json).
-func c23OptionalBoolean(strict bool) {
+// whose content is exactly one DER BOOLEAN (nothing may follow it inside the explicit tag).
+// onlyTrailing selects just the inputs "valid BOOLEAN followed by trailing bytes inside the
+// explicit tag", which must be rejected (regression guard for the defect fixed in a8d3593, see
+// known_findings.json); otherwise every input is considered.
+func c23OptionalBoolean(onlyTrailing bool) {
 	b := c23Input(c23Lens(7))
 	outer := verifrt.U8()
 	def := verifrt.Bool()
@@ -303,12 +304,13 @@ func c23OptionalBoolean(strict bool) {
 		ok = ok && itag == byte(asn1.BOOLEAN) && len(body) == 1 && (body[0] == 0 || body[0] == 0xff)
 		trailing = len(irest) != 0
 	}
-	if strict {
+	if onlyTrailing {
 		verifrt.Assume(ok && trailing)
 		verifrt.Assert(!got, "optional BOOLEAN present: trailing bytes inside the explicit tag are rejected")
+		verifrt.Reach("trailing-rejected")
 		return
 	}
-	verifrt.Assume(!(ok && trailing))
+	ok = ok && !trailing
 	verifrt.Assert(got == ok, "optional BOOLEAN present: accepted iff explicit tag around exactly one DER BOOLEAN")
 	if got && ok {
 		verifrt.Assert(v == (body[0] == 0xff), "optional BOOLEAN: value")
@@ -317,13 +319,12 @@ func c23OptionalBoolean(strict bool) {
 	}
 }
 
-// Verif_C23_OptionalBoolean: everything except "valid BOOLEAN followed by trailing bytes inside
-// the explicit tag".
+// Verif_C23_OptionalBoolean: every input of length 0..7 (trailing bytes inside the explicit tag
+// must be rejected like any other malformed input).
 func Verif_C23_OptionalBoolean() { c23OptionalBoolean(false) }
 
-// Verif_C23_OptionalBooleanTrailing: exactly that case; KNOWN FINDING on the unchanged tree
-// (e.g. A0 04 01 01 FF 00 is accepted as TRUE; ReadOptionalASN1Integer/OctetString reject the
-// analogous inputs).
+// Verif_C23_OptionalBooleanTrailing: only "valid BOOLEAN followed by trailing bytes inside the
+// explicit tag" (e.g. A0 04 01 01 FF 00, accepted as TRUE before a8d3593): must be rejected.
 func Verif_C23_OptionalBooleanTrailing() { c23OptionalBoolean(true) }
 
 // c23Unique is obligation (R, uniqueness): enc (the builder's encoding of the value a reader
